@@ -111,18 +111,17 @@ def parseOf (ty : String) (t : Bytes) : Option (Out DV) :=
   | _ => none
 
 def tsWhy (t : Int) : String :=
-  if displayTimestamp t = .panic then "ts-range-panic"
+  if !tsPrintable t then "ts-range"
   else if t % 1000000 ≠ 0 then "ts-subsecond"
   else if (civilFromDays (Int.tdiv (t - thirtyYearsUs) 1000 / 86400000)).1 < -9999 then "ts-bc-wide-year"
   else "?"
 
 /-- why the model expects `parse (display v)` not to return `v` (reason tag → signature) -/
 def whyTag : DV → String
-  | .blob b => if b.any (fun x => x == 92 || x == 39) then "blob-escape" else "?"
   | .ts t => tsWhy t
   | .tstz t => tsWhy t
   | .interval _ _ ms => if ms % 1000 ≠ 0 then "iv-subsecond" else "?"
-  | .date d => if dateInRange d then "?" else "date-range-panic"
+  | .date d => if dateInRange d then "?" else "date-range"
   | _ => "?"
 
 def showOutVal : Option (Out DV) → String
